@@ -27,11 +27,13 @@ pub struct RunOpts {
     pub backtraces: bool,
     pub verbose: bool,
     pub max_steps: u64,
+    /// one OS thread per simulated thread (one-shot replays only)
+    pub os_threads: bool,
 }
 
 impl Default for RunOpts {
     fn default() -> RunOpts {
-        RunOpts { record_history: false, backtraces: false, verbose: false, max_steps: 60_000 }
+        RunOpts { record_history: false, backtraces: false, verbose: false, max_steps: 60_000, os_threads: false }
     }
 }
 
@@ -2384,6 +2386,7 @@ pub fn run_case(case: &Case, opts: &RunOpts) -> Outcome {
         },
         capture_backtraces: opts.backtraces,
         stack_size: 256 * 1024,
+        os_threads: opts.os_threads,
         verbose: opts.verbose,
     };
     let chooser = make_chooser(&case.sched);
